@@ -35,7 +35,8 @@ Kinds == {"call", "notif", "result", "error", "errordata", "errwrapped", "errpla
 IdSmall == {"zero", "small", "neg"}
 \* integers that a float64 represents exactly
 IdExact == {"2^53-1", "2^53", "-2^53", "int>2^53rep", "int64min"}
-\* integers that a float64 cannot represent (odd beyond 2^53; 2^63-1 rounds to 2^63)
+\* integers that a float64 cannot represent (odd beyond 2^53; 2^63-1 rounds to 2^63): the classes a
+\* decoder that goes through float64 alters
 IdLossy == {"2^53+1", "-2^53-1", "int>2^53", "int<-2^53", "int64max"}
 IdInts  == IdSmall \cup IdExact \cup IdLossy
 IdStrs  == {"str-empty", "str-ascii", "str-unicode", "str-numeric"}
@@ -71,9 +72,9 @@ AllFields(b) == [idType |-> b, idValue |-> b, method |-> b, params |-> b, result
                  errCode |-> b, errMsg |-> b, errData |-> b]
 
 (* The code-shaped expectation.                                               *)
-(*  - MakeID (messages.go:35-45) receives the id as the float64 that the JSON *)
-(*    decoder produced and converts it with int64(v): exact iff the integer   *)
-(*    is representable in a float64; the type (number) is kept.               *)
+(*  - decodeID (messages.go) parses an integer literal with strconv.ParseInt, *)
+(*    so every int64 id keeps its exact value and its type (before commit     *)
+(*    bcf4320 ids went through float64 and the IdLossy classes were altered). *)
 (*  - wireCombined.Method is `string,omitempty` (wire.go): Encode drops an    *)
 (*    empty method.  DecodeMessage keeps it (wireDecode.Method is a           *)
 (*    RawMessage), so dec loses the member on re-encode; in direction enc the *)
@@ -88,8 +89,7 @@ ExpectedMsg(c) ==
   LET encEmpty == c.dir = "enc" /\ c.method = "empty"
       cls == IF encEmpty THEN (IF c.kind = "call" THEN "result" ELSE "reject") ELSE WantCls(c)
       f == IF encEmpty THEN AllFields(FALSE)
-           ELSE [AllFields(TRUE) EXCEPT !.idValue = c.id \notin IdLossy,
-                                        !.method  = c.method # "empty",
+           ELSE [AllFields(TRUE) EXCEPT !.method  = c.method # "empty",
                                         !.errData = c.kind # "errwrapped"]
   IN [cls |-> cls, frame |-> "ok", evmeta |-> TRUE, f |-> f]
 
@@ -113,7 +113,7 @@ Preserve(c, o)  == c.dir = "dec" => FieldsOK(c, o)     \* Encode(Decode(w)) ~ w 
 HoldsMsg(c, o)  == RoundTrip(c, o) /\ Preserve(c, o)
 
 \* Cases in which the code-shaped expectation itself breaks the property: leads to confirm on the real code
-MsgLead(c) == c.id \in IdLossy \/ c.method = "empty"
+MsgLead(c) == c.method = "empty"
 
 -----------------------------------------------------------------------------
 (* 2. Wire shapes: Classify transcribes jsonrpc2.DecodeMessage                *)
